@@ -152,11 +152,16 @@ pub fn run(s: &mut Session, ctx: &Ctx) {
                 for (v, c) in gray_bin.iter().enumerate() {
                     s.check(within(*c, uniform_n, 1.0 / 256.0), "gray-lightness-uniform", "strategies::UniformGray", || format!("lightness bin {}/256", v), || format!("{} hits of {}", c, uniform_n));
                 }
-                // read as 8-bit values (round(255 l)), the end values 0 and 255 own half a step each - a
-                // property of rounding a uniform lightness, not of the strategy (DESIGN 10.8)
+                // read as 8-bit values: a strategy that rounds a uniform lightness gives the end values 0 and 255
+                // half a step each (the pinned code), one that draws the level itself gives them a full step;
+                // "roughly equal frequency" admits both, so the end values may lie anywhere between the two
+                // expectations (12 sigma outside them); the interior values between 1/256 and 1/255
                 for (v, c) in gray_level.iter().enumerate() {
-                    let p = if v == 0 || v == 255 { 0.5 / 255.0 } else { 1.0 / 255.0 };
-                    s.check(within(*c, uniform_n, p), "gray-levels-equally-frequent", "strategies::UniformGray", || format!("level {}", v), || format!("{} hits of {}", c, uniform_n));
+                    let (plo, phi) = if v == 0 || v == 255 { (0.5 / 255.0, 1.0 / 255.0) } else { (1.0 / 256.0, 1.0 / 255.0) };
+                    let n = uniform_n as f64;
+                    let lo = n * plo - 12.0 * (n * plo * (1.0 - plo)).sqrt() - 1.0;
+                    let hi = n * phi + 12.0 * (n * phi * (1.0 - phi)).sqrt() + 1.0;
+                    s.check((*c as f64) >= lo && (*c as f64) <= hi, "gray-levels-equally-frequent", "strategies::UniformGray", || format!("level {}", v), || format!("{} hits of {}", c, uniform_n));
                 }
             }
         }
